@@ -153,7 +153,12 @@ class Decomposer:
                 "solver": "lobpcg",
                 "random_state": self.random_state,
             }
-            U, s, VT = self._svd(X, dims, complex_svd, solver_kwargs)
+            # The convergence tolerance of the iterative solver is absolute:
+            # decompose the data scaled to unit norm
+            scale = np.linalg.norm(X.values)
+            scale = scale if np.isfinite(scale) and scale > 0 else 1.0
+            U, s, VT = self._svd(X / scale, dims, complex_svd, solver_kwargs)
+            s = s * scale
             idx_sort = np.argsort(s)[::-1]
             U = U[:, idx_sort]
             s = s[idx_sort]
